@@ -13,7 +13,7 @@ from checks import c01, hashcommon as hc
 
 gen = hc.gen
 DRIVERS = hc.DRIVERS
-PROFILE = {"mix": 4, "occ": 5, "reject": 1, "inflight": 3}
+PROFILE = {"mix": 4, "occ": 5, "reject": 1, "inflight": 3, "pad": 1}
 
 
 def run(tier, replay=None):
